@@ -29,13 +29,26 @@ type c18Params struct {
 	applyFn     string // "applyForeignKeysToNodes"
 	execRel     string // "sql/rowexec"
 	iterIface   string // "RowIter"
-	floors      map[string]int
+	// key-change gates (C18-K, c18k.go; skipped when mapperType is empty)
+	rowType       string   // "Row"
+	typeIface     string   // "Type"
+	compareMethod string   // "Compare"
+	mapperType    string   // "ForeignKeyRowMapper": its method returning (RowIter, error) is the child-row lookup
+	mappingType   string   // "ChildParentMapping": []int with -1 for columns outside the key
+	refType       string   // "ForeignKeyReferenceHandler"
+	checkFn       string   // "CheckReference"
+	refCheckFns   []string // functions that must check the references of the row they write
+	selfRefFn     string   // "ForeignKeyConstraint.IsSelfReferential" (empty: clause skipped)
+	floors        map[string]int
 }
 
 var c18Repo = c18Params{sqlRel: "sql", enumType: "ForeignKeyReferentialAction", restrictFn: "IsEquivalentToRestrict", ocIface: "EditOpenerCloser",
 	planRel: "sql/plan", editorType: "ForeignKeyEditor", ops: []string{"Update", "Delete"}, handler: "ForeignKeyHandler",
 	analyzerRel: "sql/analyzer", applyFn: "applyForeignKeysToNodes", execRel: "sql/rowexec", iterIface: "RowIter",
-	floors: map[string]int{"C18-D1": 12, "C18-D2": 4, "C18-D3": 8, "C18-D4": 1, "C18-W": 3}}
+	rowType: "Row", typeIface: "Type", compareMethod: "Compare", mapperType: "ForeignKeyRowMapper", mappingType: "ChildParentMapping",
+	refType: "ForeignKeyReferenceHandler", checkFn: "CheckReference", refCheckFns: []string{"ForeignKeyEditor.Update", "ForeignKeyHandler.Insert"},
+	selfRefFn: "ForeignKeyConstraint.IsSelfReferential",
+	floors:    map[string]int{"C18-D1": 12, "C18-D2": 4, "C18-D3": 8, "C18-D4": 1, "C18-W": 3, "C18-K": 14}}
 
 func init() {
 	register(&Property{
@@ -45,9 +58,11 @@ func init() {
 			"(D2) on every CFG path the pre-edit dispatch precedes the underlying Editor.Update/Delete and the edit precedes the post-edit dispatch (restrict before, cascade after); " +
 			"(D3) the errors of every handler call and of the underlying edit are returned (not dropped, not swallowed); " +
 			"(D4) Update and Delete treat the same actions as restricting / acting; " +
-			"(W) every plan node type whose rowexec builder constructs a DML iterator (an iterator that edits rows through field-held editors: InsertInto, Update, DeleteFrom) has a case in analyzer.applyForeignKeysToNodes whose arm wires a plan.ForeignKeyHandler in.",
-		NotCovered: "which child rows a cascade touches, depth limits and cycles, self-references, CheckReference on the child side, TRUNCATE (validated separately by processTruncate), foreign_key_checks = 0",
-		Technique:  "enum-dispatch folding over go/constant + CFG ordering + who-constructs cross-check between rowexec builders and the analyzer's type switch",
+			"(W) every plan node type whose rowexec builder constructs a DML iterator (an iterator that edits rows through field-held editors: InsertInto, Update, DeleteFrom) has a case in analyzer.applyForeignKeysToNodes whose arm wires a plan.ForeignKeyHandler in; " +
+			"(K) the key-change gates, folded over every key of 0..3 columns with each column's sql.Type.Compare(old,new) abstracted to 0 / <0 / >0 / error (and ChildParentMapping entries of -1): every On<Op>… handler called by the dispatch reaches its child-row lookup (the ForeignKeyRowMapper method returning a RowIter) iff at least ONE referenced column changed for UPDATE and unconditionally for DELETE, returns comparison errors, and compares the old with the new value of the column the loop is at; the (bool,error) predicates the handlers gate on (ColumnsUpdated) are true iff some referenced column changed; " +
+			"ForeignKeyEditor.Update calls CheckReference on the NEW row for every reference of which some column changed and ForeignKeyHandler.Insert for every reference, before the underlying edit on every path, and a failing check or comparison fails the edit; CheckReference accepts a parentless self-referencing row iff ALL its key columns equal the referenced columns.",
+		NotCovered: "which child rows a cascade touches (the row the child lookup is keyed by, the values written to the children), depth limits and cycles, the NULL / MATCH FULL rules and the parent lookup inside CheckReference, that an unchanged key skips the child-side check (only 'changed => checked' is demanded there), TRUNCATE (validated separately by processTruncate), foreign_key_checks = 0",
+		Technique:  "enum-dispatch folding over go/constant + CFG ordering + who-constructs cross-check between rowexec builders and the analyzer's type switch + finite-domain folding (eng_mini with unrolled key loops) of the key-change gates",
 		Run:        func(c *Ctx) { runC18(c, c18Repo) },
 		Fixture: func(c *Ctx, fx *Prog) {
 			p := c18Params{sqlRel: "testdata/c18/sql", enumType: "ForeignKeyReferentialAction", restrictFn: "IsEquivalentToRestrict", ocIface: "EditOpenerCloser",
@@ -59,8 +74,17 @@ func init() {
 				"C18-D3:ForeignKeyEditor.Update/OnUpdateCascade",
 				"C18-D4:Update-vs-Delete",
 			}, func(fc *Ctx) { runC18(fc, p) })
+			pk := c18Params{sqlRel: "testdata/c18k/sql", ocIface: "EditOpenerCloser", planRel: "testdata/c18k/plan", editorType: "ForeignKeyEditor", ops: []string{"Update", "Delete"},
+				iterIface: "RowIter", rowType: "Row", typeIface: "Type", compareMethod: "Compare", mapperType: "ForeignKeyRowMapper", mappingType: "ChildParentMapping",
+				refType: "ForeignKeyReferenceHandler", checkFn: "CheckReference", refCheckFns: []string{"ForeignKeyEditor.Update", "ForeignKeyHandler.Insert"}, floors: map[string]int{}}
+			expectFixture(c, fx, "c18k: broken key-change gates must be reported", []string{
+				"C18-K:ForeignKeyEditor.Update/reference-check",
+				"C18-K:ForeignKeyEditor.OnUpdateCascade/key-change-gate",
+				"C18-K:ForeignKeyEditor.AllColumnsUpdated/any-referenced-column-changed",
+				"C18-K:ForeignKeyHandler.Insert/reference-check-before-edit",
+			}, func(fc *Ctx) { runC18K(fc, pk, dmlLookupIface(fc.P, pk.sqlRel, pk.ocIface)) })
 		},
-		FixturePkgs: []string{"./testdata/c18/sql", "./testdata/c18/plan"},
+		FixturePkgs: []string{"./testdata/c18/sql", "./testdata/c18/plan", "./testdata/c18k/sql", "./testdata/c18k/plan"},
 	})
 }
 
@@ -124,6 +148,9 @@ func runC18(c *Ctx, p c18Params) {
 	}
 	if p.analyzerRel != "" {
 		c18Wiring(c, p, oc)
+	}
+	if p.mapperType != "" {
+		runC18K(c, p, oc)
 	}
 }
 
